@@ -56,23 +56,29 @@ def u(n: ast.AST) -> str:
 
 
 class Chain:
-    def __init__(self):
+    def __init__(self, chain=None):
+        self.chain = chain or CHAIN
         self.classes: List[ast.ClassDef] = []
-        for i, (name, rel) in enumerate(CHAIN):
+        for i, (name, rel) in enumerate(self.chain):
             c = class_def(parse(rel), name)
             self.classes.append(c)
-            if i + 1 < len(CHAIN):
+            if i + 1 < len(self.chain):
                 bases = [u(b) for b in c.bases if u(b) != "ABC"]
-                if bases != [CHAIN[i + 1][0]]:
-                    raise Unsupported(f"class {name} derives from {bases}, expected [{CHAIN[i + 1][0]}]")
+                if bases != [self.chain[i + 1][0]]:
+                    raise Unsupported(f"class {name} derives from {bases}, expected [{self.chain[i + 1][0]}]")
         # `super()._can_perform_action()` as seen from Service: exactly "the node is ON"
-        _, cpa_fn = self.resolve("_can_perform_action", 2)
+        i_svc = [n for n, _ in self.chain].index("Service")
+        for k in range(i_svc):     # nothing below Service may override what Service's methods call on `self`
+            for n in self.classes[k].body:
+                if isinstance(n, ast.FunctionDef) and n.name in ("set_health_state",):
+                    raise Unsupported(f"{self.chain[k][0]} overrides {n.name}")
+        _, cpa_fn = self.resolve("_can_perform_action", i_svc + 1)
         cpa = [x for x in cpa_fn.body if not _noeffect(x)]
         if not (len(cpa) == 2 and isinstance(cpa[0], ast.If) and u(cpa[1]) == "return True"
                 and u(cpa[0].test) == "self.software_manager and self.software_manager.node.operating_state != NodeOperatingState.ON"
                 and u([x for x in cpa[0].body if not _noeffect(x)][0]) == "return False"):
             raise Unsupported("the _can_perform_action below Service is not `node is ON`")
-        shs = [x for x in find_method(self.classes[3], "set_health_state").body if not _noeffect(x)]
+        shs = [x for x in self.resolve("set_health_state", 0)[1].body if not _noeffect(x)]
         if [u(x) for x in shs] != ["self.health_state_actual = health_state", "return True"]:
             raise Unsupported("Software.set_health_state is not the plain setter")
 
@@ -81,7 +87,7 @@ class Chain:
             for n in self.classes[i].body:
                 if isinstance(n, ast.FunctionDef) and n.name == method:
                     return i, n
-        raise Unsupported(f"method {method} not found from {CHAIN[start][0]} upwards")
+        raise Unsupported(f"method {method} not found from {self.chain[start][0]} upwards")
 
 
 def _noeffect(st: ast.stmt) -> bool:
@@ -193,8 +199,10 @@ def cond(e: ast.AST) -> str:
 
 # ---------------------------------------------------------------------------------------------- statements
 class Emitter:
-    def __init__(self):
-        self.chain = Chain()
+    def __init__(self, chain=None, prefix=""):
+        self.chain = Chain(chain)
+        self.CH = self.chain.chain
+        self.prefix = prefix
         self.defs: List[str] = []          # emitted Lean definitions, callee first
         self.names: Dict[Tuple[int, str], str] = {}
         self.bool_ret: Dict[Tuple[int, str], bool] = {}
@@ -211,7 +219,8 @@ class Emitter:
             raise Unsupported(f"recursion through {method}")
         self.stack.append(key)
         fdef = find_method(self.chain.classes[idx], method)
-        name = f"{CHAIN[idx][0]}_{method.strip('_')}"
+        CHAIN = self.CH
+        name = f"{self.prefix}{CHAIN[idx][0]}_{method.strip('_')}"
         if CHAIN[idx][0] == "SimComponent":
             if not all(_noeffect(x) for x in fdef.body):
                 raise Unsupported(f"SimComponent.{method} does something")
@@ -295,36 +304,45 @@ class Emitter:
 
 
 FAILED: Dict[str, str] = {}
+FTPC_CHAIN = [("FTPClient", "simulator/system/services/ftp/ftp_client.py"), ("FTPServiceABC", "simulator/system/services/ftp/ftp_service.py")] + CHAIN[1:]
+# the FTP client on the database host: its tick and the two methods that load its countdowns
+FTPC_ROOTS = [("apply_timestep", "ftpcApplyTimestep", False), ("fix", "ftpcFix", True), ("restart", "ftpcRestart", True)]
+
+
+def _emit_chain(out: List[str], chain, prefix: str, roots, who: str, failkey):
+    try:
+        em = Emitter(chain, prefix)
+    except Exception as e:  # noqa: BLE001
+        em = None
+        FAILED[failkey("class-chain")] = f"{type(e).__name__}: {e}"
+    for method, lean, want_bool in roots:
+        ret = "TickW × Bool" if want_bool else "TickW"
+        stub = "(w.setOp SvcState.disabled, false)" if want_bool else "w.setOp SvcState.disabled"
+        snap = None
+        try:
+            if em is None:
+                raise Unsupported(FAILED[failkey("class-chain")])
+            snap = (len(em.defs), dict(em.names), dict(em.bool_ret))
+            idx, _ = em.chain.resolve(method, 0)
+            name = em.fn(idx, method, want_bool)
+            out += em.defs[snap[0]:]
+            out += [f"/-- `{who}.{method}(...)` as Python dispatches it ({chain[idx][0]}.{method}) -/",
+                    f"def {lean} {PARAMS} : {ret} := {name} w {ARGS}", ""]
+        except Exception as e:  # noqa: BLE001
+            FAILED[failkey(method)] = f"{type(e).__name__}: {e}"
+            if em is not None and snap is not None:
+                del em.defs[snap[0]:]
+                em.names, em.bool_ret = snap[1], snap[2]
+                em.stack.clear()
+            out += [f"/-- `{who}.{method}`: NOT TRANSLATED ({type(e).__name__}) -/", f"def {lean} {PARAMS} : {ret} := {stub}", ""]
 
 
 def emit() -> str:
     FAILED.clear()
-    out = ["import PrimaiteModel.Model.DatabaseTick", "import PrimaiteModel.Gen.DatabaseTr", "set_option linter.unusedVariables false", "namespace Primaite.Gen.DatabaseTickTr",
-           "open Primaite.Database", ""]
-    try:
-        em = Emitter()
-    except Exception as e:  # noqa: BLE001
-        em = None
-        FAILED["class-chain"] = f"{type(e).__name__}: {e}"
-    for method, lean, want_bool in ROOTS:
-        ret = "TickW × Bool" if want_bool else "TickW"
-        stub = "(w.setOp SvcState.disabled, false)" if want_bool else "w.setOp SvcState.disabled"
-        try:
-            if em is None:
-                raise Unsupported(FAILED["class-chain"])
-            n0 = len(em.defs)
-            idx, _ = em.chain.resolve(method, 0)
-            name = em.fn(idx, method, want_bool)
-            out += em.defs[n0:]
-            out += [f"/-- `database_service.{method}(...)` as Python dispatches it ({CHAIN[idx][0]}.{method}) -/",
-                    f"def {lean} {PARAMS} : {ret} := {name} w {ARGS}", ""]
-        except Exception as e:  # noqa: BLE001
-            FAILED[method] = f"{type(e).__name__}: {e}"
-            if em is not None:
-                del em.defs[n0:]
-                em.stack.clear()
-                for k in [k for k, v in em.names.items() if not any(d.startswith(f"/-- `{CHAIN[k[0]][0]}.{k[1]}`") for d in em.defs)]:
-                    em.names.pop(k), em.bool_ret.pop(k)
-            out += [f"/-- `{method}`: NOT TRANSLATED ({type(e).__name__}) -/", f"def {lean} {PARAMS} : {ret} := {stub}", ""]
+    out = ["import PrimaiteModel.Model.DatabaseTick", "import PrimaiteModel.Gen.DatabaseTr", "set_option linter.unusedVariables false",
+           "namespace Primaite.Gen.DatabaseTickTr", "open Primaite.Database", ""]
+    _emit_chain(out, CHAIN, "", ROOTS, "database_service", lambda m: m)
+    out += ["/-! ### the FTP client on the database host (FTPClient -> FTPServiceABC -> Service -> IOSoftware -> Software) -/", ""]
+    _emit_chain(out, FTPC_CHAIN, "Ftpc_", FTPC_ROOTS, "ftp_client", lambda m: "ftpc:" + m)
     out += ["end Primaite.Gen.DatabaseTickTr", ""]
     return "\n".join(out)
